@@ -121,6 +121,8 @@ def _cli_confirm(job: dict) -> dict:
                 out["confirmed"] = r["status"] == 1 and f"prog.py:{first}:" in r["stdout"] and p.returncode == 0
         elif d["sub"] == "reach":
             ver = tuple(d["version"])
+            if ver < (3, 10):
+                return {"confirmed": None, "note": "the command line refuses targets below 3.10; not re-run"}
             text = (f"import sys\nif {d['cond']}:\n    print('BODY')\n    b: int = 'checked-body'\nelse:\n    print('ELSE')\n"
                     f"    e: int = 'checked-else'\n")
             open(path, "w").write(text)
@@ -217,9 +219,13 @@ def _vacuity(sub: str, st: Counter, extra: dict[str, Counter]) -> list[str]:
     return bad
 
 
-def run(ctx: Ctx, only: tuple[str, ...] = SUBS) -> Result:
+def run(ctx: Ctx, only: tuple[str, ...] = SUBS, item_filter: Any = None) -> Result:
+    """`only` / `item_filter` restrict the run (used by detection demos); a restricted run reports
+    exhaustive=False for the sub-enumerations it cut."""
     cache = run_isolated(_warm_cache, 0, timeout=900)
     items, spaces = _all_items(ctx, cache, only)
+    if item_filter is not None:
+        items = [it for it in items if item_filter(it)]
     log(f"C12 {ctx.tier}: {len(items)} work items " + str({s: sum(1 for i in items if i['kind'] == s) for s in only}))
     stats: dict[str, Counter] = {s: Counter() for s in SUBS}
     extra: dict[str, dict[str, Counter]] = {s: {"mypy_kinds": Counter(), "rt_kinds": Counter(), "kinds": Counter()} for s in SUBS}
@@ -262,7 +268,7 @@ def run(ctx: Ctx, only: tuple[str, ...] = SUBS) -> Result:
             continue
         confirmations[job["signature"]] = val
         first_of[job["signature"]]["detail"]["cli_confirmation"] = val
-        if not val.get("confirmed"):
+        if val.get("confirmed") is False:
             herr.append(f"CLI run did NOT confirm {job['signature']}: {val}")
 
     violations = [Violation(v["signature"], v["what"], v["detail"]) for v in raw]
@@ -316,10 +322,9 @@ def run(ctx: Ctx, only: tuple[str, ...] = SUBS) -> Result:
                                                  "mypy_val", "mypy_none", "mypy_crash", "mypyc_val", "mypyc_none", "mypyc_crash",
                                                  "folded_and_equal", "failing_expressions", "parser_differences",
                                                  "wired_checked", "wired_final_value_set"]),
-            "nontrivial": st["mypy_val"] + st["mypy_crash"] + st["ref_exc"],
+            "nontrivial": st["nontrivial"],
             "complete": failed_items["fold"] == 0 and st["expressions"] == want,
         }
-        stats["fold"]["nontrivial"] = cov_sub["fold"]["nontrivial"]
 
     evaluations = (stats["calls"]["calls"] + stats["mro"]["classes_compared"] + stats["reach"]["evaluations"]
                    + stats["fold"]["evaluations"])
@@ -347,7 +352,7 @@ def run(ctx: Ctx, only: tuple[str, ...] = SUBS) -> Result:
         "arithmetic are taken from it" % sys.version_info[:2],
         "bundled typeshed (no fixture stubs); builtins/typing are loaded from a cache warmed once per run",
         "reach: the run-time sys.version_info for target (3, N) is any (3, N, micro, level, serial); a plain tuple stands "
-        "in for the struct sequence; python_version is set through Options (the CLI refuses targets below 3.9)",
+        "in for the struct sequence; python_version is set through Options (the CLI refuses targets below 3.10)",
         "fold: mypyc's folder is called directly on real (parsed / semantically analysed) trees, not through a compiled "
         "extension; expressions whose evaluation would allocate 8e6..2^50 bits/items are excluded (counted)",
         "calls: all types are int, so every diagnostic on a call line is an arity/keyword diagnostic",
@@ -389,7 +394,7 @@ def replay(ctx: Ctx, rec: dict) -> Result:
         r = c12_fold.replay_one(d, cache)
         print(r)
         if r["failing"]:
-            viol.append(Violation(rec["signature"], f"`{d['expr']}`: eval {r['reference']}, folded {r['folded']}", {}))
+            viol.append(Violation(rec["signature"], f"`{c12_fold.short_src(d['expr'])}`: eval {r['reference']}, folded {r['folded']}", {}))
     else:
         raise ValueError(f"unknown sub-enumeration {sub!r}")
     return Result(PROPERTY, LEVEL, {}, viol)
